@@ -23,8 +23,10 @@ import (
 	"errors"
 	"fmt"
 	"io"
+	"maps"
 	"net/http"
 	"net/url"
+	"slices"
 	"time"
 
 	"github.com/rs/zerolog"
@@ -187,9 +189,11 @@ func (e Endpoint) Hash() []byte {
 	hash.Write(stringx.ToBytes(e.Method))
 
 	buf := bytes.NewBufferString("")
-	for k, v := range e.Headers {
+	// the iteration order of a map is random. To have a stable hash value,
+	// the headers are processed in the order of their names
+	for _, k := range slices.Sorted(maps.Keys(e.Headers)) {
 		buf.Write(stringx.ToBytes(k))
-		buf.Write(stringx.ToBytes(v))
+		buf.Write(stringx.ToBytes(e.Headers[k]))
 	}
 
 	hash.Write(buf.Bytes())
